@@ -36,6 +36,7 @@ class FnSpec:
         self.trusted_note = None
         self.attrs = []
         self.loopghosts = {}
+        self.renames = []         # function-local R9 renames (%rename /a/ -> /b/)
 
 
 class ModSpec:
@@ -184,6 +185,11 @@ def parse_spec(path):
             sec = []
             cur_fn.proofs.append((m.group(1), m.group(2), int(m.group(3) or 0), sec, "proof_decl!"))
             section = sec
+        elif s.startswith("%rename") and cur_fn is not None:
+            m = re.match(r"%rename\s+/(.*)/\s*->\s*/(.*)/\s*$", s)
+            if not m:
+                raise Undecided("bad %%rename at %s:%d" % (path, lineno))
+            cur_fn.renames.append((m.group(1), m.group(2)))
         elif s.startswith("%attr") and cur_fn is not None:
             cur_fn.attrs.append(s[len("%attr"):].strip())
         elif s.startswith("%spec") and cur_fn is not None:
@@ -531,7 +537,7 @@ def emit_fn(b, u, m, d, items, idx, info, used_fns, probe_fn, deferred=None):
         b.rule_counts["R8"] = b.rule_counts.get("R8", 0) + 1
         return
     inserts = fn_inserts(u, m, d, it, info, used_fns, probe_fn)
-    emit_range(b, d, m.file, it["start"], it["end"], inserts, m.renames)
+    emit_range(b, d, m.file, it["start"], it["end"], inserts, (fs.renames if fs is not None else []) + m.renames)
     b.gen("\n")
 
 
